@@ -334,6 +334,11 @@ def search(ctx):
             ctx.count("pair-full", ["horton2", "cca", k], "ok" if r is None else r[0])
             if r:
                 ctx.fail(f"{r[0]}:horton2->cca:{k}", r[1], {"kind": "table-full", "table": "cca", "key": list(k)})
+    changed = tables_after_use()
+    ctx.count("tables-after-use", "h-shell round trips", "ok" if not changed else "changed")
+    for n in changed:
+        ctx.fail(f"table-modified-by-use:{n}", f"built-in convention table {n} differs after dumping and reloading a basis "
+                 "with a pure h shell (a reader or writer stored into the shared table)", {"kind": "tables-after-use", "table": n})
     # histories on objects that stay alive and are edited in place
     for _ in range(ctx.n(150, 2000) * (4 if ctx.escalated else 1)):
         hs = rng.getrandbits(48)
@@ -492,8 +497,44 @@ def check_inplace_history(rng, h2, nsteps):
     return None
 
 
+def tables_after_use():
+    """the built-in tables before and after the library itself has used them (dump and reload of a basis with shell
+    types some tables do not define): returns the names of tables that changed"""
+    import copy
+    import os
+    import tempfile
+    import warnings
+
+    from iodata import IOData, dump_one, load_one
+    from iodata.basis import MolecularBasis, Shell
+    from iodata.orbitals import MolecularOrbitals
+
+    before = copy.deepcopy(_tables())
+    shells = [Shell(0, np.array([0]), ["c"], np.array([1.3]), np.array([[1.0]])),
+              Shell(0, np.array([5]), ["p"], np.array([0.9]), np.array([[1.0]]))]
+    import iodata.convert as cv
+
+    ob = MolecularBasis(shells, cv.HORTON2_CONVENTIONS, "L2")
+    nb = ob.nbasis
+    mo = MolecularOrbitals("restricted", 1, 1, np.array([2.0]), np.eye(nb)[:, :1], np.array([-0.5]), np.array(["a"]))
+    d = IOData(atnums=np.array([2]), atcoords=np.zeros((1, 3)), obasis=ob, mo=mo)
+    with tempfile.TemporaryDirectory(prefix="c10t-") as tmp, warnings.catch_warnings():
+        warnings.simplefilter("ignore")
+        for ext in ("mkl", "molden", "fchk"):
+            fn = os.path.join(tmp, "h." + ext)
+            try:
+                dump_one(d, fn)
+                load_one(fn)
+            except Exception:  # noqa: BLE001  a refusal is fine here: only the tables are observed
+                pass
+    after = _tables()
+    return sorted(n for n in before if before[n] != after.get(n))
+
+
 def replay(ctx, obj):
     inp = obj["input"]
+    if inp["kind"] == "tables-after-use":
+        return bool(tables_after_use())
     if inp["kind"] == "history":
         import random
 
